@@ -312,6 +312,20 @@ class Program:
     # ---- constants
     def find_const(self, text):
         t = text
+        # references may carry the generic arguments of the enclosing fn (`f::<S>::{closure#0}::promoted[0]`); definitions do not
+        while '::<' in t:
+            a = t.index('::<')
+            depth, b = 0, a + 2
+            while True:
+                ch = t[b]
+                if ch == '<':
+                    depth += 1
+                elif ch == '>' and t[b - 1] != '-':
+                    depth -= 1
+                    if depth == 0:
+                        break
+                b += 1
+            t = t[:a] + t[b + 1:]
         while True:
             f = self.consts.get(t)
             if f is not None:
